@@ -368,7 +368,7 @@ def shard(args):
         return dict(ok=False, err='reference run failed: %s' % e)
 
 
-def run_shards(jobs, procs=None, timeout=900, fn=None):
+def run_shards(jobs, procs=None, timeout=2700, fn=None):   # generous: a loaded machine must not turn a slow run into an INFRA error
     fn = fn or shard
     procs = procs or max(2, min(14, (os.cpu_count() or 4) - 2))
     if len(jobs) <= 1 or procs <= 1:
